@@ -1,5 +1,6 @@
 import Mathlib.Tactic.Ring
 import OnlVerif.Lemmas.Port
+import OnlVerif.Props.C09K
 /-!
 # C09 — a port serialises at its line rate and tail-drops exactly at its limit
 
@@ -73,7 +74,7 @@ theorem put_counters (c : PortCfg ℚ) (hc : Plain c) (s s' : FState ℚ (PortSt
     ((o = .accepted ∧ s'.dev.dropped = s.dev.dropped) ∨ (o = .dropped ∧ s'.dev.dropped = s.dev.dropped + 1)) ∧
     s'.dev.stamps = s.dev.stamps + (if c.hasId then 1 else 0) := by
   have hr : c.red = none := hc
-  simp only [step, dev_admit, admitPkt, hr, admitPlain, choice_acc, choice_dev] at h
+  simp only [Fifo.step, dev_admit, admitPkt, hr, admitPlain, choice_acc, choice_dev] at h
   split at h
   · rename_i hb
     simp only [Except.ok.injEq, Prod.mk.injEq] at h
@@ -96,7 +97,7 @@ theorem service_time_exact (c : PortCfg ℚ) (s s' : FState ℚ (PortSt ℚ)) (x
     (hp : s.handed = some p) (h : step (Port.dev c) s (.resume x y) = .ok (s', o)) :
     (0 < c.rate → o = .nothing ∧ s'.tx = some (p, s.now + (p.size * 8 : ℕ) / c.rate, 0)) ∧
     (¬ 0 < c.rate → o = .depart p ∧ s'.tx = none) := by
-  simp only [step, hp, dev_onResume, onResume, dev_onDone] at h
+  simp only [Fifo.step, hp, dev_onResume, onResume, dev_onDone] at h
   have hz : (Num.zero : ℚ) = 0 := zero_eq'
   constructor
   · intro hr
@@ -201,5 +202,70 @@ example : summary (runActs (Port.dev { rate := 8, qlimit := some 2, limitBytes :
     (start 0) [.init, .put ⟨1, 0, 10, 0, 0, 0⟩, .put ⟨2, 0, 10, 0, 0, 0⟩, .put ⟨3, 0, 10, 0, 0, 0⟩, .handoff,
       .resume 0 0, .tick 10, .fire]) = some ([1], [1], 2) := by
   decide +kernel
+
+/-! ### the Port as a process on the kernel model `K`
+
+`OnlVerif/Net/PortOnK.lean` writes `Port.run` and a packet source as a program of the kernel model; `Props/C09K.lean`
+proves that every kernel run of that program is an admissible run of the LTS above (no admissibility assumption) and
+satisfies the departure recurrence.  The headline statements are restated here so that the axiom audit of this file
+covers them, and three theorems of this file are transferred to kernel runs through the refinement. -/
+
+/-- **The departure recurrence holds for the Port as a kernel process** (no queue limit, every `rate`, every finite
+workload with non-negative gaps, bursts and arrivals at departure instants included): `run()` of the kernel model
+returns with an empty agenda within `4·n + 4` steps and the `out.put` observations are exactly
+`(id_k, max(a_k, d_{k-1}) + 8·size_k/rate)` in arrival order (`+ 0` instead of `8·size_k/rate` when `rate ≤ 0`). -/
+theorem port_on_kernel_departures (size : Int → Nat) (rate : ℚ) (arrivals : List (ℚ × Int))
+    (hg : ∀ x ∈ arrivals, 0 ≤ x.1) (fuel n : Nat) (hn : 4 * arrivals.length + 4 ≤ n) :
+    ∃ sF, runAll (PortOnK.body size rate none) (fuel + 1) n (PortOnK.initState arrivals) = .returned .none sF ∧
+      sF.agenda = [] ∧ PortOnK.outsOf sF.trace = PortOnK.departures size rate none 0 arrivals :=
+  C09K.port_on_kernel_departures size rate arrivals hg fuel n hn
+
+/-- **The Port process on the kernel model refines this LTS** (with or without a byte limit `ql`): every kernel state
+reachable from the initial state is the image (under the abstraction function `PortOnK.absPort`) of an action sequence
+this LTS accepts from `start 0`, with the `out.put` observations departed; accepted plus dropped packets account for
+`packets_received`, and without a limit the accepted packets are the first `packets_received` arrivals. -/
+theorem port_on_kernel_refines_lts (size : Int → Nat) (rate : ℚ) (ql : Option Int) (arrivals : List (ℚ × Int))
+    (hg : ∀ x ∈ arrivals, 0 ≤ x.1) (fuel : Nat) (s : KState ℚ (PSt ℚ))
+    (hreach : KReach (PortOnK.body size rate ql) (fuel + 1) (PortOnK.initState arrivals) s) :
+    ∃ acts ins, runActs (Port.dev (PortOnK.cfg rate ql)) (start 0) acts =
+        .ok (PortOnK.absPort size s, ins, (PortOnK.outsOf s.trace).map (·.1.toNat)) ∧
+      ins.length + (PortOnK.cellInt s PortOnK.cDropped).toNat = (PortOnK.cellInt s PortOnK.cReceived).toNat ∧
+      (ql = none →
+        ins = ((arrivals.take (PortOnK.cellInt s PortOnK.cReceived).toNat).map (·.2)).map Int.toNat) :=
+  C09K.port_on_kernel_refines_lts size rate ql arrivals hg fuel s hreach
+
+/-- **`fifo_and_conservation` transferred to kernel runs**: at every reachable kernel state, the packets `put` has
+accepted are, in order, the packets logged by `out.put` followed by the packets the port still holds. -/
+theorem kernel_run_fifo_and_conservation (size : Int → Nat) (rate : ℚ) (ql : Option Int) (arrivals : List (ℚ × Int))
+    (hg : ∀ x ∈ arrivals, 0 ≤ x.1) (fuel : Nat) (s : KState ℚ (PSt ℚ))
+    (hreach : KReach (PortOnK.body size rate ql) (fuel + 1) (PortOnK.initState arrivals) s) :
+    ∃ ins, ins = (PortOnK.outsOf s.trace).map (·.1.toNat) ++ held (PortOnK.absPort size s) ∧
+      ins.length + (PortOnK.cellInt s PortOnK.cDropped).toNat = (PortOnK.cellInt s PortOnK.cReceived).toNat ∧
+      (ql = none →
+        ins = ((arrivals.take (PortOnK.cellInt s PortOnK.cReceived).toNat).map (·.2)).map Int.toNat) := by
+  obtain ⟨acts, ins, h, h2, h3⟩ := port_on_kernel_refines_lts size rate ql arrivals hg fuel s hreach
+  exact ⟨ins, fifo_and_conservation _ 0 acts _ _ _ h, h2, h3⟩
+
+/-- **`byte_occupancy_eq_held` transferred to kernel runs**: the LTS state a reachable kernel state stands for
+advertises exactly the bytes it holds (its `byteSize` is the attribute cell `byte_size` of the kernel state). -/
+theorem kernel_run_byte_occupancy_eq_held (size : Int → Nat) (rate : ℚ) (ql : Option Int) (arrivals : List (ℚ × Int))
+    (hg : ∀ x ∈ arrivals, 0 ≤ x.1) (fuel : Nat) (s : KState ℚ (PSt ℚ))
+    (hreach : KReach (PortOnK.body size rate ql) (fuel + 1) (PortOnK.initState arrivals) s) :
+    (PortOnK.absPort size s).dev.byteSize = heldBytes (PortOnK.absPort size s) ∧
+      (PortOnK.absPort size s).dev.byteSize = PortOnK.cellInt s PortOnK.cByteSize := by
+  obtain ⟨acts, ins, h, -, -⟩ := port_on_kernel_refines_lts size rate ql arrivals hg fuel s hreach
+  exact ⟨byte_occupancy_eq_held _ 0 acts _ _ _ h, by rw [PortK.absPort_dev]; rfl⟩
+
+/-- **`occupancy_le_byte_limit` transferred to kernel runs**: with a byte limit `l ≥ 0`, `byte_size` never exceeds
+it at any reachable kernel state. -/
+theorem kernel_run_occupancy_le_byte_limit (size : Int → Nat) (rate : ℚ) (l : Int) (hl : 0 ≤ l)
+    (arrivals : List (ℚ × Int)) (hg : ∀ x ∈ arrivals, 0 ≤ x.1) (fuel : Nat) (s : KState ℚ (PSt ℚ))
+    (hreach : KReach (PortOnK.body size rate (some l)) (fuel + 1) (PortOnK.initState arrivals) s) :
+    PortOnK.cellInt s PortOnK.cByteSize ≤ l := by
+  obtain ⟨acts, ins, h, -, -⟩ := port_on_kernel_refines_lts size rate (some l) arrivals hg fuel s hreach
+  have h1 := occupancy_le_byte_limit (PortOnK.cfg rate (some l)) rfl l rfl rfl hl 0 acts _ _ _ h
+  have h2 := byte_occupancy_eq_held _ 0 acts _ _ _ h
+  rw [← h2, PortK.absPort_dev] at h1
+  exact h1
 
 end C09
